@@ -207,6 +207,19 @@ PATTERNS = {
 }
 GOOD_PATTERNS = ['', 'abc', 'a+b*', '[a-z]{2,3}', r'(?P<x>\d+)', r'\w+\s', 'a|b', '^x$']
 
+TRICKY: t.Dict[str, t.List[t.Any]] = {
+    'pattern': ['(', 'a{4294967296}', '[', '*', '(?P<x', 'a{2,1}', '\\', '(?z)', 'a{4294967295,4294967296}'],
+    'pattern-bytes': [b'(', b'a{4294967296}', b'[', b'*', b'\\'],
+    'Fraction': ['1/0', 'abc', '', '1/-2', '1//2', 'nan', 'inf', float('nan'), float('inf'), '1e999999'],
+    'Decimal': ['abc', '', '1e9999999', '--1', '1/2', 'sNaN'],
+    'date': ['2023-13-45', '', '11:12:13', '2023-1-5', '20230105', '2023-W01-1', 'today'],
+    'time': ['25:00:00', '', '2023-01-05', '11:12', 'T11', '11:12:13Z', '11:12:13+25:00'],
+    'datetime': ['2023-13-45 00:00:00', '', '2023-01-05T25:00', '2023-01-05 11:12:13+99:00', '11:12:13'],
+    'float': [10**400, -10**400, 10**308, 2**1024],
+    'complex': [10**400],
+    'path': ['\x00', 'a\x00b'],
+}
+
 SCALAR_NAMES = ['int', 'float', 'complex', 'str', 'bytes', 'bytearray', 'bool', 'none', 'any', 'Decimal', 'Fraction',
                 'date', 'time', 'datetime', *PATH_TYPES.keys(), *PATTERNS.keys()]
 
@@ -238,7 +251,14 @@ class Scalar(Node):
         k = (self.name, hd)
         c = Scalar._VALID_CACHE.get(k)
         if c is None:
-            c = Scalar._VALID_CACHE[k] = self._valid(hd)
+            c = self._valid(hd)
+            tricky = TRICKY.get(self.name) or (TRICKY['pattern-bytes'] if self.name.endswith('[bytes]') else
+                                               TRICKY['pattern'] if self.name in PATTERNS else
+                                               TRICKY['path'] if self.name in PATH_TYPES else None)
+            if tricky:
+                # right input kind, but the constructor may raise: "mostly valid" is all valid() promises
+                c = st.one_of(c, c, c, st.sampled_from(tricky))
+            Scalar._VALID_CACHE[k] = c
         return c
 
     def _valid(self, hd: bool = False):
@@ -1023,7 +1043,7 @@ enum_specs = st.sampled_from(sorted(usertypes.ENUMS)).map(lambda n: ('enum', n))
 sub_specs = st.sampled_from(sorted(usertypes.SUBCLASSES)).map(lambda n: ('sub', n))
 
 COND_NUM = st.one_of(
-    st.sampled_from([('Positive',), ('Negative',), ('NonPositive',), ('NonNegative',), ('even',)]),
+    st.sampled_from([('Positive',), ('Negative',), ('NonPositive',), ('NonNegative',), ('even',), ('Finite',), ('raises',)]),
     st.tuples(st.just('val_range'), st.one_of(st.none(), st.integers(-3, 3)), st.one_of(st.none(), st.integers(0, 6))),
 )
 COND_LEN = st.one_of(
